@@ -498,7 +498,12 @@ func (e *Engine) onlyConstructorStores(t types.Type, i int) bool {
 				for _, r := range *fa.Referrers() {
 					switch x := r.(type) {
 					case *ssa.UnOp:
-						// load
+						// load; the value of a slice or map field must stay read-only as well: handing it out
+						// (return, call argument, append, store elsewhere) or writing an element through it shares
+						// its backing store with whoever gets it
+						if !fresh && sharesBackingStore(x) {
+							return false
+						}
 					case *ssa.Store:
 						if x.Addr != ssa.Value(fa) || !fresh {
 							return false
@@ -525,6 +530,47 @@ func (e *Engine) onlyConstructorStores(t types.Type, i int) bool {
 		}
 	}
 	return true
+}
+
+// sharesBackingStore: the loaded value v is a slice or a map and is used for something other than reading it in
+// place (len, cap, range, element loads, lookups, nil comparison).
+func sharesBackingStore(v *ssa.UnOp) bool {
+	switch v.Type().Underlying().(type) {
+	case *types.Slice, *types.Map:
+	default:
+		return false
+	}
+	if v.Referrers() == nil {
+		return false
+	}
+	for _, r := range *v.Referrers() {
+		switch x := r.(type) {
+		case *ssa.DebugRef, *ssa.Range, *ssa.Lookup, *ssa.BinOp:
+		case *ssa.Call:
+			if b, ok := x.Call.Value.(*ssa.Builtin); ok && (b.Name() == "len" || b.Name() == "cap") {
+				continue
+			}
+			return true
+		case *ssa.IndexAddr:
+			if x.Referrers() != nil {
+				for _, r2 := range *x.Referrers() {
+					if st, ok := r2.(*ssa.Store); ok && st.Addr == ssa.Value(x) {
+						return true
+					}
+					if _, ok := r2.(*ssa.UnOp); !ok {
+						if _, ok := r2.(*ssa.DebugRef); !ok {
+							if _, isStore := r2.(*ssa.Store); !isStore {
+								return true
+							}
+						}
+					}
+				}
+			}
+		default:
+			return true
+		}
+	}
+	return false
 }
 
 // findConstTables recognises `var table = []T{c0, c1, ...}` at package level: the init function stores constants
